@@ -72,6 +72,12 @@ def run(ctx, rep):
     rep.rule("R18.8", "arguments of the trust-region methods agree with their parameters (no swapped arguments)")
     from . import common
     common.check_swapped_args(ctx, rep, "R18.8", lambda g: g.cls is not None and g.cls.name == "TrustRegion")
+    # the snap-to-floor of the radius setter relies on threshold > 1 also when
+    # the threshold is *derived* from its partner during completion
+    rep.rule("R18.9", "constants the radius rules rely on stay in their domain when they are derived from a supplied partner (completion of coupled pairs)")
+    from . import c19
+    from ..report import Renamed
+    c19.r193(ctx, Renamed(rep, to="R18.9"), ctx.func(c19.OPT_FUNC), ctx.func(c19.CST_FUNC), c19.enum_tables(ctx))
 
 
 def r181(ctx, rep):
@@ -157,14 +163,18 @@ def r182(ctx, rep):
             rep.finding("R18.2", er, norm(n.ast)[:100], n.line,
                         "after a resolution reduction the radius must be max(.., self.resolution) computed after the resolution update; "
                         + ("the floor is not the new resolution" if not good else "it is computed before the resolution is updated"))
+    r182_fit(ctx, rep)
+
+
+def r182_fit(ctx, rep, rule="R18.2"):
     # Interpolation.__init__: radius_final clamped after radius_init is fitted
     ii = ctx.func("cobyqa.models:Interpolation.__init__")
     cfg2 = ctx.cfg(ii)
     beg = [n for n in cfg2.nodes if n.kind == "stmt" and isinstance(n.ast, ast.Assign) and any(isinstance(t, ast.Subscript) and mentions(t.slice, "RHOBEG") for t in n.ast.targets)]
     end = [n for n in cfg2.nodes if n.kind == "stmt" and isinstance(n.ast, ast.Assign) and any(isinstance(t, ast.Subscript) and mentions(t.slice, "RHOEND") for t in n.ast.targets)]
     if not beg or not end:
-        rep.bad("R18.2", "fit of the initial radius")
-        rep.finding("R18.2", ii, "radius_init / radius_final fit", ii.node.lineno, "the initial radius is no longer fitted to the bounds together with radius_final")
+        rep.bad(rule, "fit of the initial radius")
+        rep.finding(rule, ii, "radius_init / radius_final fit", ii.node.lineno, "the initial radius is no longer fitted to the bounds together with radius_final")
     else:
         b, e = beg[0], end[0]
         v = e.ast.value
@@ -185,10 +195,10 @@ def r182(ctx, rep):
         same_guard = [c[2] for c in enclosing_context(b.ast, ii.node) if c[0] == "if-true"] == [c[2] for c in enclosing_context(e.ast, ii.node) if c[0] == "if-true"]
         desc = f"{ii.local}:{e.line} radius_final = {norm(v)[:60]}"
         if good and same_guard:
-            rep.ok("R18.2", desc + " <= fitted radius_init")
+            rep.ok(rule, desc + " <= fitted radius_init")
         else:
-            rep.bad("R18.2", desc)
-            rep.finding("R18.2", ii, norm(e.ast)[:100], e.line, "when the initial radius is shrunk to fit the bounds, radius_final must be clamped to the *new* radius_init (min(radius_final, fitted value)), otherwise radius_final > resolution")
+            rep.bad(rule, desc)
+            rep.finding(rule, ii, norm(e.ast)[:100], e.line, "when the initial radius is shrunk to fit the bounds, radius_final must be clamped to the *new* radius_init (min(radius_final, fitted value)), otherwise radius_final > resolution")
 
 
 def r183(ctx, rep):
